@@ -260,10 +260,11 @@ class Histories(Driver):
             self.plan = [(1, 2, (1, 2), 2, 1), (2, 2, (1, 2), 2, 1), (3, 2, (1, 2), 2, 1), (4, 1, (1, 2), 0, 0),
                          (4, 1, (1,), 1, 1), (4, 1, (1, 2), 1, 0, "osp")]
         else:
-            # about 0.8 G histories (80 minutes on 16 cores); the first version of this plan had 2.5 G and ran for four hours
-            self.plan = [(1, 2, (0, 1, 3), 2, 1), (2, 2, (0, 1, 3), 2, 1), (3, 2, (0, 1, 2, 3), 2, 1), (4, 1, (1, 2), 2, 1),
-                         (4, 2, (1,), 2, 1), (4, 1, (0, 1, 3), 1, 0), (5, 1, (1, 2), 0, 0, "osp"), (5, 1, (1,), 1, 0),
-                         (6, 1, (1,), 0, 0, "osp")]
+            # about 0.33 G histories.  Earlier versions of this plan had 2.5 G (four hours) and 0.8 G histories (N = 6 with unit
+            # weights, N = 5 with a lock over all permutations: more than two and a half hours) and were cut back
+            self.plan = [(1, 2, (0, 1, 3), 2, 1), (2, 2, (0, 1, 3), 2, 1), (3, 2, (0, 1, 2, 3), 2, 1), (4, 1, (1, 2), 0, 0), (4, 1, (1,), 1, 1),
+                         (4, 1, (1, 2), 2, 1, "osp"), (4, 2, (1,), 2, 1), (4, 1, (0, 1, 3), 1, 0), (5, 1, (1, 2), 0, 0, "osp"),
+                         (5, 1, (1,), 1, 0, "osp")]
         self.bound = dict(plan=[dict(N=p[0], missing_roots=p[1], weights=list(p[2]), max_locks=p[3], max_redeliveries=p[4],
                                      batchings="ordered set partitions" if len(p) > 5 else "all permutations x all cuts")
                                 for p in self.plan])
